@@ -32,30 +32,43 @@ Readings(w) == IF w = <<>> THEN {} ELSE ReadingsFrom(w, 1)
 SharedSpellings == {p.w : p \in UPrefixes} \cap {nm.w : nm \in UNames}
 CombinedUnitNames == {nm \in UNames : nm.w \notin SharedSpellings}
 Longest(S) == IF S = {} THEN {} ELSE {x \in S : \A y \in S : Len(y.w) <= Len(x.w)}
-\* one (prefix, unit) from position i: [ok, e, u, next]
+\* The generated lexers are DFAs: when the input runs further along some longer spelling than the
+\* longest complete match and then fails, the DFA has to fall back to its last accepting state
+\* ("backtracking situation").  Longest match is still what the procedure is meant to deliver.
+RECURSIVE PartialLen(_, _, _, _)
+PartialLen(w, i, sp, k) ==       \* does w[i .. i+k-1] start the spelling sp?  longest such k
+  IF k < Len(sp) /\ i + k <= Len(w) /\ w[i + k] = sp[k + 1] THEN PartialLen(w, i, sp, k + 1) ELSE k
+MaxPartial(w, i, S) == LET ls == {PartialLen(w, i, x.w, 0) : x \in S} IN
+                       IF ls = {} THEN 0 ELSE CHOOSE m \in ls : \A y \in ls : y <= m
+\* one (prefix, unit) from position i: [ok, e, u, next, bt]
 ParseOne(w, i) ==
   LET us == {nm \in CombinedUnitNames : MatchAt(w, i, nm.w)}
       ps == PrefixesAt(w, i)
       bestU == Longest(us)
       bestP == Longest(ps)
       lu == IF bestU = {} THEN 0 ELSE Len((CHOOSE x \in bestU : TRUE).w)
-      lp == IF bestP = {} THEN 0 ELSE Len((CHOOSE x \in bestP : TRUE).w) IN
-  IF lu = 0 /\ lp = 0 THEN [ok |-> FALSE, e |-> 0, u |-> "", next |-> i]
-  ELSE IF lu > lp THEN LET nm == CHOOSE x \in bestU : TRUE IN [ok |-> TRUE, e |-> nm.bias, u |-> nm.u, next |-> i + lu]
+      lp == IF bestP = {} THEN 0 ELSE Len((CHOOSE x \in bestP : TRUE).w)
+      bt1 == MaxPartial(w, i, CombinedUnitNames \cup UPrefixes) > (IF lu > lp THEN lu ELSE lp) IN
+  IF lu = 0 /\ lp = 0 THEN [ok |-> FALSE, e |-> 0, u |-> "", next |-> i, bt |-> bt1]
+  ELSE IF lu > lp THEN LET nm == CHOOSE x \in bestU : TRUE IN [ok |-> TRUE, e |-> nm.bias, u |-> nm.u, next |-> i + lu, bt |-> bt1]
   ELSE LET p == CHOOSE x \in bestP : TRUE
            j == i + lp
            alone == {nm \in UNames : nm.w = p.w} IN
        IF j > Len(w) /\ alone # {}
-       THEN LET nm == CHOOSE x \in alone : TRUE IN [ok |-> TRUE, e |-> nm.bias, u |-> nm.u, next |-> j]
-       ELSE LET b2 == Longest(NamesAt(w, j)) IN
-            IF b2 = {} THEN [ok |-> FALSE, e |-> 0, u |-> "", next |-> j]
-            ELSE LET nm == CHOOSE x \in b2 : TRUE IN [ok |-> TRUE, e |-> p.e + nm.bias, u |-> nm.u, next |-> j + Len(nm.w)]
+       THEN LET nm == CHOOSE x \in alone : TRUE IN [ok |-> TRUE, e |-> nm.bias, u |-> nm.u, next |-> j, bt |-> bt1]
+       ELSE LET b2 == Longest(NamesAt(w, j))
+                l2 == IF b2 = {} THEN 0 ELSE Len((CHOOSE x \in b2 : TRUE).w)
+                bt2 == MaxPartial(w, j, UNames) > l2 IN
+            IF b2 = {} THEN [ok |-> FALSE, e |-> 0, u |-> "", next |-> j, bt |-> bt1 \/ bt2]
+            ELSE LET nm == CHOOSE x \in b2 : TRUE IN
+                 [ok |-> TRUE, e |-> p.e + nm.bias, u |-> nm.u, next |-> j + Len(nm.w), bt |-> bt1 \/ bt2]
 RECURSIVE ParseWordFrom(_, _)
-ParseWordFrom(w, i) == IF i > Len(w) THEN [ok |-> TRUE, r |-> <<>>]
+ParseWordFrom(w, i) == IF i > Len(w) THEN [ok |-> TRUE, r |-> <<>>, bt |-> FALSE]
                        ELSE LET one == ParseOne(w, i) IN
-                            IF ~one.ok THEN [ok |-> FALSE, r |-> <<>>]
+                            IF ~one.ok THEN [ok |-> FALSE, r |-> <<>>, bt |-> one.bt]
                             ELSE LET rest == ParseWordFrom(w, one.next) IN
-                                 IF rest.ok THEN [ok |-> TRUE, r |-> <<[e |-> one.e, u |-> one.u]>> \o rest.r] ELSE rest
+                                 IF rest.ok THEN [ok |-> TRUE, r |-> <<[e |-> one.e, u |-> one.u]>> \o rest.r, bt |-> one.bt \/ rest.bt]
+                                 ELSE [rest EXCEPT !.bt = one.bt \/ rest.bt]
 ParseWord(w) == ParseWordFrom(w, 1)
 
 \* ---- unit expressions over tokens (kinds as Lexer.tla; `texts[i]` the characters of token i)
@@ -90,9 +103,13 @@ UnitExprFrom(kinds, texts, i, to, st) ==
          ELSE IF n # 1 THEN [st EXCEPT !.k = "err"]
          ELSE UnitExprFrom(kinds, texts, i + 1, to, st)
     ELSE IF k \in {"WORD", "TO"} THEN
-         LET rs == Readings(texts[i]) IN
+         LET rs == Readings(texts[i])
+             pw == ParseWord(texts[i]) IN
          IF rs = {} THEN [st EXCEPT !.k = "err"]
          ELSE IF Cardinality(rs) > 1 THEN [st EXCEPT !.k = "ood"]       \* ambiguous word: C05's business
+         \* a readable word that the tool's longest-match procedure does not split that way may be rejected
+         \* by the tool (allowed), or read differently (C05's business): not decided here
+         ELSE IF ~pw.ok \/ pw.bt \/ pw.r # (CHOOSE r \in rs : TRUE) THEN [st EXCEPT !.k = "ood"]
          ELSE UnitExprFrom(kinds, texts, i + 1, to, ApplyReading(st, CHOOSE r \in rs : TRUE, 1))
     ELSE IF k \in {"CARET", "STARSTAR"} THEN
          \* `^n` applies to the unit it follows; blanks may separate `^` and n
